@@ -375,6 +375,17 @@ Definition failover_target (c : coord) (word : list N) (w : N) : option N :=
 Definition next_outcome (os : list bool) : bool * list bool :=
   match os with [] => (true, []) | o :: r => (o, r) end.
 
+(* One migration inside failover / drain / rebalance.  The scripted outcome of the deploy call on the
+   target is consumed only when migrate_pipeline gets as far as that call, i.e. when its checks pass. *)
+Definition migrate_next (c : coord) (p g t : N) (os : list bool) : coord * bool * list bool :=
+  match plan_migrate c p g t with
+  | inl _ => (c, false, os)
+  | inr m =>
+    let '(o, os') := next_outcome os in
+    let '(c', b) := commit_migrate c m o in
+    (c', b, os')
+  end.
+
 (* result per affected pipeline: Some true = migrated, Some false = migration failed, None = no target *)
 Fixpoint evacuate (c : coord) (word : list N) (w : N) (aff : list (N * N)) (os : list bool)
   : coord * list (option bool) :=
@@ -384,10 +395,9 @@ Fixpoint evacuate (c : coord) (word : list N) (w : N) (aff : list (N * N)) (os :
     match failover_target c word w with
     | None => let '(c', res) := evacuate c word w r os in (c', None :: res)
     | Some t =>
-      let '(o, os') := next_outcome os in
-      let '(c1, res1) := migrate c p g t o in
+      let '(c1, b, os') := migrate_next c p g t os in
       let '(c', res) := evacuate c1 word w r os' in
-      (c', Some (match res1 with inr true => true | _ => false end) :: res)
+      (c', Some b :: res)
     end
   end.
 
@@ -472,10 +482,9 @@ Fixpoint run_migrations (c : coord) (ms : list (N * N * N)) (os : list bool) : c
   match ms with
   | [] => (c, [])
   | (g, p, t) :: r =>
-    let '(o, os') := next_outcome os in
-    let '(c1, res1) := migrate c p g t o in
+    let '(c1, b, os') := migrate_next c p g t os in
     let '(c', res) := run_migrations c1 r os' in
-    (c', match res1 with inr true => true | _ => false end :: res)
+    (c', b :: res)
   end.
 
 Definition rebalance (c : coord) (os : list bool) (word : list N) (pord : list (N * N)) : coord * list bool :=
